@@ -422,7 +422,7 @@ func unblockCell(w *sched.W, kind, how string) {
 
 // telnetNegCell: the server's opening (two option negotiations around a two-byte command, then text) reaches the client in two TCP
 // segments cut at byte cutAt: the text, and nothing else, is returned by the first reads and both requests
-// are answered. Generous real-time margins: the halves are 20ms apart, the client waits 1s/2s per byte.
+// are answered. Generous real-time margins: the halves are 20ms apart, the client waits 2s/4s per byte.
 func telnetNegCell(w *sched.W, rs, cutAt int) {
 	tag := fmt.Sprintf("telnet-neg rs=%d cut=%d", rs, cutAt)
 	if r := w.Replaying(); r != nil && r.Case != tag {
@@ -457,7 +457,7 @@ func telnetNegCell(w *sched.W, rs, cutAt int) {
 		return
 	}
 	defer srv.Close()
-	t, err := transport.NewTransport(noLog(), "127.0.0.1", transport.TelnetTransport, options.WithPort(srv.Port), options.WithTransportReadSize(rs), options.WithTimeoutSocket(4*time.Second))
+	t, err := transport.NewTransport(noLog(), "127.0.0.1", transport.TelnetTransport, options.WithPort(srv.Port), options.WithTransportReadSize(rs), options.WithTimeoutSocket(8*time.Second))
 	if err == nil {
 		err = t.Open()
 	}
